@@ -112,9 +112,9 @@ class Filter(Contract):
 
     @property
     def models(self):
-        return (self.install,)
+        return (self.install_models,)
 
-    def install(self, reg):
+    def install_models(self, reg):
         c = self
 
         def sites(I, o, a, k):
